@@ -98,9 +98,38 @@ type stimResult struct {
 }
 
 type subH struct {
-	cfg    Stim
-	sub    *publisher.Subscriber[int]
-	closed bool
+	cfg       Stim
+	sub       *publisher.Subscriber[int]
+	closed    bool
+	accepted  int // accepted messages published while subscribed (by the harness's own filter function)
+	recvCount int
+}
+
+// shortResolved: by counting only - every delivery to a subscriber with a short timeout has ended (called
+// after sleeping past all their deadlines): subscribers with OnTimeout have accepted = delivered + callbacks,
+// and the live delivery goroutines are exactly the undelivered messages of the 60s subscribers.
+func (r *runner) shortResolved(mk marker) bool {
+	r.mu.Lock()
+	cb := map[int]int{}
+	for _, e := range r.events {
+		if e.kind == evOnTimeout {
+			cb[e.sid]++
+		}
+	}
+	r.mu.Unlock()
+	long := 0
+	for i, s := range r.subs {
+		if s.closed || i >= len(mk.lens) {
+			continue
+		}
+		delivered := s.recvCount + mk.lens[i]
+		if s.cfg.Tmo == 2 {
+			long += s.accepted - delivered
+		} else if s.cfg.OnT && s.accepted-delivered-cb[i] != 0 {
+			return false
+		}
+	}
+	return mk.gor == long
 }
 
 type runner struct {
@@ -312,14 +341,18 @@ func (r *runner) doStim(st Stim) (stimResult, bool) {
 func runScript(sc Script) execResult {
 	r := &runner{origin: time.Now(), pub: publisher.NewPublication[int]()}
 	var out execResult
-	var lastShortDeadline time.Duration
+	var lastShortDeadline, lastClass0 time.Duration
 	haveShort := false
 	step := func(st Stim) bool {
 		if st.Op == opAdvance {
 			// sleep until every short timer started so far is overdue by a margin
 			wait := 0
 			if haveShort {
-				d := lastShortDeadline + 40*time.Millisecond - r.since()
+				target := lastShortDeadline
+				if st.S == 1 {
+					target = lastClass0
+				}
+				d := target + 40*time.Millisecond - r.since()
 				if d > 0 {
 					wait = int(d / time.Millisecond)
 				}
@@ -340,11 +373,32 @@ func runScript(sc Script) execResult {
 					if d > lastShortDeadline {
 						lastShortDeadline = d
 					}
+					if s.cfg.Tmo == 0 && d > lastClass0 {
+						lastClass0 = d
+					}
 					haveShort = true
 				}
 			}
 		}
 		mk, q := r.quiesce()
+		if q && st.Op == opAdvance && st.S == 0 {
+			// the timers get a generous bound: up to 3s for every overdue delivery to end
+			deadline := time.Now().Add(watchdog)
+			for q && !r.shortResolved(mk) && time.Now().Before(deadline) {
+				time.Sleep(5 * time.Millisecond)
+				mk, q = r.quiesce()
+			}
+		}
+		if st.Op == opRecv && sr.recv.kind == 0 {
+			r.subs[st.S].recvCount++
+		}
+		if st.Op == opPub {
+			for _, s := range r.subs {
+				if !s.closed && accepts(s.cfg, st.M) {
+					s.accepted++
+				}
+			}
+		}
 		sr.mk = mk
 		out.stims = append(out.stims, st)
 		out.res = append(out.res, sr)
